@@ -223,6 +223,10 @@ func (ex *Exec) applyContract(st *State, site string, fn *ssa.Function, ct *Cont
 		ex.record(st, fmt.Sprintf("%s/pre:%s@%s:%s", ex.rootName, name, site, r.label), "requires", g, r.src)
 	}
 	ex.assertAt(st, name, e.vars)
+	if !st.dry && ex.contract != nil && (ex.contract.blocksCancellable || ex.contract.blocksNever) && ex.w.mayBlock(fn) && !ct.blocksNever {
+		// a callee that can block: fine if it is itself verified to be cancellable (for the context it is given)
+		ex.blocking = append(ex.blocking, blockingOp{Site: site, Kind: "call", Cancellable: ct.blocksCancellable, Note: "call to " + name + ", which may block", Chan: name})
+	}
 	pre := st.snapshotHeap()
 	// havoc the frame
 	ex.havocModifies(st, ct, e, pre)
@@ -314,6 +318,8 @@ func (ex *Exec) evalMod(st *State, m *node, e *env) []modTarget {
 			return []modTarget{{region: "G!ctr*"}}
 		case "cb":
 			return []modTarget{{region: "G!cb*"}}
+		case "pushes":
+			return []modTarget{{region: "G!push*"}, {region: "G!msgline"}, {region: "G!lastrecv"}}
 		case "readers":
 			return []modTarget{{region: "G!rd*"}}
 		case "heap":
@@ -660,7 +666,17 @@ func sortType(s string) types.Type {
 func (ex *Exec) sendInstr(st *State, in *ssa.Send) {
 	ch := st.get(in.Chan)
 	v := st.get(in.X)
-	ex.blocking = append(ex.blocking, blockingOp{Site: siteOf(in), Kind: "send", Cancellable: ex.provablyFree(st, ch), Note: "bare channel send", Chan: in.Chan.Name()})
+	free := false
+	if strings.HasPrefix(ch.T, "chan!") {
+		// a channel made by this function: the send cannot block if there is provably room
+		capT := sel(st.region("G!chancap", arr("Int", "Int")), ch.T)
+		pend := "(- " + sel(st.region("G!sentlen", arr("Int", "Int")), ch.T) + " " + sel(st.region("G!recvlen", arr("Int", "Int")), ch.T) + ")"
+		ex.record(st, fmt.Sprintf("%s/blocks:send-room@%s", ex.rootName, siteOf(in)), "blocks", "(< "+pend+" "+capT+")", "bare send on a channel made by this function: room must be provable")
+		free = true
+	}
+	if !st.dry {
+		ex.blocking = append(ex.blocking, blockingOp{Site: siteOf(in), Kind: "send", Cancellable: free, Note: "bare channel send", Chan: in.Chan.Name()})
+	}
 	ex.appendSent(st, ch, v)
 	ex.syncPoint(st)
 }
@@ -746,7 +762,9 @@ func splitTop(s string) []string {
 func (ex *Exec) recv(st *State, ch Val, in *ssa.UnOp) Val {
 	ct := ch.Typ.Underlying().(*types.Chan)
 	isDone := ch.Meta == "ctx.Done"
-	ex.blocking = append(ex.blocking, blockingOp{Site: siteOf(in), Kind: "recv", Cancellable: isDone, Note: "bare channel receive", Chan: in.X.Name()})
+	if !st.dry {
+		ex.blocking = append(ex.blocking, blockingOp{Site: siteOf(in), Kind: "recv", Cancellable: isDone, Note: "bare channel receive", Chan: in.X.Name()})
+	}
 	ex.syncPoint(st)
 	if isDone {
 		st.markCancelled(ch)
@@ -933,7 +951,9 @@ func (ex *Exec) selectStmt(st *State, in *ssa.Select, k func(*State, Val)) {
 			hasDone = true
 		}
 	}
-	ex.blocking = append(ex.blocking, blockingOp{Site: siteOf(in), Kind: "select", Cancellable: hasDone || !in.Blocking, Note: fmt.Sprintf("select with %d arms", len(in.States))})
+	if !st.dry {
+		ex.blocking = append(ex.blocking, blockingOp{Site: siteOf(in), Kind: "select", Cancellable: hasDone || !in.Blocking, Note: fmt.Sprintf("select with %d arms", len(in.States))})
+	}
 	ex.syncPoint(st)
 	mk := func(s *State, idx int, recvIdx int, rv Val) Val {
 		fs := []Val{term(strconv.Itoa(idx), tInt), term("true", tBool)}
@@ -1009,6 +1029,9 @@ func (ex *Exec) callFuncType(st *State, site string, ct *Contract, fnv Val, args
 	}
 	for _, r := range ct.requires {
 		ex.record(st, fmt.Sprintf("%s/pre:functype@%s:%s", ex.rootName, site, r.label), "requires", ex.evalBool(st, r.expr, e), r.src)
+	}
+	if !st.dry && ex.contract != nil && ex.contract.blocksCancellable {
+		ex.blocking = append(ex.blocking, blockingOp{Site: site, Kind: "call", Cancellable: ct.blocksCancellable, Note: "call through a function value of type " + ct.short, Chan: ct.short})
 	}
 	pre := st.snapshotHeap()
 	ex.havocModifies(st, ct, e, pre)
